@@ -34,7 +34,12 @@ PROP = {'drive': ['Faults'],
              'complete file by the model of header.Read is shown for a literal file and by correspondence, not as a '
              'general theorem',
              '(*cff.Font).Write: the section loop is modelled over the observed section lengths; the section contents '
-             'are C13'],
+             'are C13',
+             'cff.Read on truncated / failing sources is checked by direct predicate on the real code for every k '
+             '(no Lean model of the CFF reader here: C13); the parser-level theorems cover the primitive it relies on',
+             'parser model: the source delivers f[0,k) and then ends; a source that returns n > 0 bytes together '
+             'with a non-EOF error, or fails a read-ahead that merely touches k, makes operations fail earlier than '
+             'needed (allowed by the property) and is not modelled'],
  'modelled_not_verified': ['the destination takes p[:n] of each Write(p) (io.Writer contract); bytes.Reader.ReadAt, '
                            'io.SectionReader and io.ReadAll semantics (standard library) are re-stated in the model '
                            '(memReader, readAll) and compared by correspondence',
@@ -55,7 +60,14 @@ LEVEL = {'text': 'Proof: for every table set and every fault point k, the model 
          'byte of the last table), so sfnt.Read fails for seekable and streaming sources. Tied to the Go code by '
          'exhaustive enumeration of k over a corpus of fonts (CFF and glyf outlines, all three sfnt writers, '
          'cff.Write, header.Write on synthetic table sets): Go (n, err) = model for every k, header.Read outcome '
-         'class = model for every k, and sfnt.Read rejects every k inside table data.',
+         'class = model for every k, and sfnt.Read rejects every k inside table data. At the level of '
+         'parser.Parser: for every input, every short-read behaviour and every history of operations, the parser on a '
+         'source ending at k (EOF or error) returns what a cursor over the k-byte view returns; operations whose '
+         'bytes lie below k are unaffected, operations reaching k return an error, and a bulk Read never reports '
+         'a short count without the error (C18_parser_*). Direct predicates on the real code for every k: '
+         'count = bytes taken / error iff k < total / success = whole file for all five writers, histories on '
+         'parser.Parser over sources ending at every k, cff.Read on CFF data cut or failing at every k, including '
+         'layouts whose last section is a multi-chunk INDEX.',
  'note': 'Trusted: Lean kernel + 3 standard axioms; hand-written models of the write loops and of header.Read '
          'against an abstract io.ReaderAt, checked against the code for every fault point of the corpus; the '
          'standard library io contracts as restated in the model.',
